@@ -324,3 +324,15 @@ Section Main.
     exists r. split; [exact H1|]. rewrite H2. apply truncate_describe_id. exact Hdepth.
   Qed.
 End Main.
+
+(** ** histories: the response depends on the definition and the request's features only *)
+Definition serve {D} (pr : sty -> option gval -> D) (S : schema) (reqs : list features) : list (intro_result D) :=
+  map (introspect pr S) reqs.
+
+Theorem introspect_history_independent (D : Type) (pr : sty -> option gval -> D) S reqs :
+  interfaces_declared_once S = true -> locations_known S = true ->
+  Forall2 (fun F a => exists r, a = IntroOk r /\ normalise r = truncate query_depth (describe pr S F)) reqs (serve pr S reqs).
+Proof.
+  intros H1 H2. unfold serve. induction reqs as [|F rest IH]; simpl; constructor; auto.
+  destruct (introspect_describes_upto_depth D pr S F H1 H2) as [r [E1 E2]]. exists r. auto.
+Qed.
